@@ -128,7 +128,7 @@ def check(ctx: Ctx) -> None:
                    "name used anywhere in the shipped source resolves to a module-level binding or a builtin; the SocketIO class "
                    "and the bootstrap fragments use only names the shipped prelude or the documented injector binds; shipped "
                    "modules import execnet only optionally with a __main__ fallback naming prelude bindings; the stand-alone "
-                   "socket server needs no execnet; import-bootstrap only for plain popen; the namespace the prelude runs in.")
+                   "socket server needs no execnet and binds a name the fragment probes by NameError only to a real object; import-bootstrap only for plain popen; the namespace the prelude runs in.")
     ctx.not_decided = "that a source-bootstrapped worker behaves exactly like an import-bootstrapped one (behavioural)."
     ctx.trust("CPython symtable scoping", "sys.stdlib_module_names")
     prelude = module_bindings(gb.source, gb.rel)
